@@ -544,5 +544,5 @@ META = {
     "per file; between two words of a subprocess command every constant gap _space_between can return is decided outside subprocess context or agrees with the gap in the source (a gap is the argument boundary). Tree equality and idempotence for all programs are not decided.",
     "note": "Decides the listed structural clauses, not the behaviour. Python-mode spacing (which operators get spaces) "
     "and the line classifier (_is_subproc_statement: a heuristic over token shapes) are value-level and outside this analysis.",
-    "more": 'The CLI writes exactly what the formatter returned (no edit in between) and reads with newline translation; the formatter tokenizes its own UTF-8 bytes as UTF-8, never with an encoding re-detected from a coding cookie. What the formatter remembers from one token to the next is computed from tokens, settings and constants, never measured on raw rows of the source text.',
+    "more": 'The CLI writes exactly what the formatter returned (no edit in between) and reads with newline translation; the formatter tokenizes its own UTF-8 bytes as UTF-8, never with an encoding re-detected from a coding cookie. What the formatter remembers from one token to the next is computed from tokens, settings and constants, never measured on raw rows of the source text. Where paths and formatted texts are paired by position, the list of results gets one slot per input on every way through the loop that fills it.',
 }
